@@ -47,8 +47,15 @@ func runC47(r *Report) {
 	}
 	optionGuards := func(b *ssa.BasicBlock) string {
 		var gs []string
+		var all []Guard
 		for _, g := range DomGuards(b) {
+			all = append(all, impliedGuards(normGuard(g), 3)...) // `x := opt.A && opt.B; if x` implies both
+		}
+		for _, g := range all {
 			g = normGuard(g)
+			if _, isphi := g.Cond.(*ssa.Phi); isphi {
+				continue
+			}
 			d := DescDeep(g.Cond)
 			if !strings.Contains(d, "rueidis.ClientOption.") && !strings.Contains(d, "AuthCredentials.") {
 				continue
@@ -282,8 +289,12 @@ func runC47(r *Report) {
 			continue
 		}
 		x, op, y, cok := CmpGuard(normGuard(Guard{iff.Cond, true, b}))
-		if !cok || op != token.NEQ || !IsNilConst(y) || shortType(x.Type()) != "error" {
+		if !cok || (op != token.NEQ && op != token.EQL) || !IsNilConst(y) || shortType(x.Type()) != "error" {
 			continue
+		}
+		errArm := b.Succs[0] // the successor on which the error is not nil
+		if op == token.EQL {
+			errArm = b.Succs[1] // `if err == nil { continue }` form
 		}
 		var hdr *ssa.BasicBlock
 		for _, h := range fn.Blocks {
@@ -305,10 +316,24 @@ func runC47(r *Report) {
 		if !isReplyErr {
 			continue
 		}
+		if op == token.EQL {
+			// only the guard-clause form: the nil arm is a bare `continue`
+			t, bare := b.Succs[0], true
+			for k := 0; t != hdr && k < 4; k++ {
+				if len(t.Instrs) != 1 || len(t.Succs) != 1 {
+					bare = false
+					break
+				}
+				t = t.Succs[0]
+			}
+			if !bare || t != hdr {
+				continue
+			}
+		}
 		nLoop++
 		okArm := true
 		why := ""
-		PathEnum(Site{fn, b.Succs[0], -1, nil}, func(s Site) bool {
+		PathEnum(Site{fn, errArm, -1, nil}, func(s Site) bool {
 			return s.Block == hdr && s.Idx == 0 || isReturn(s.Instr)
 		}, nil, 5000, func(conds []Guard, at Site) {
 			if ret, isret := at.Instr.(*ssa.Return); isret {
@@ -334,7 +359,7 @@ func runC47(r *Report) {
 		// the returning paths close the pipe
 		closes := false
 		for _, s := range CallSites(fn, "rueidis.(*pipe).Close") {
-			if b.Succs[0].Dominates(s.Block) || reachesBlock(b.Succs[0], s.Block) {
+			if errArm.Dominates(s.Block) || reachesBlock(errArm, s.Block) {
 				closes = true
 			}
 		}
